@@ -848,3 +848,9 @@ def result_sites(f) -> list[tuple[ast.stmt, ast.expr]]:
                 continue
         out.append((r, r.value))
     return out
+
+
+def same_node(a: ast.AST, b: ast.AST) -> bool:
+    """``a`` and ``b`` stand for the same construct: identical, or copies (expand / inlining)
+    of one node of the indexed tree."""
+    return a is b or getattr(a, "_src", a) is getattr(b, "_src", b)
